@@ -23,5 +23,5 @@ For each change k = 1..{n} write, under {wt}/out/k/ :
   patch.diff  - `git diff` against HEAD (must apply to a clean checkout with `git apply`)
   demo.py     - a small self-contained program that exits 0 when the property holds on its scenario and exits non-zero (with a message) when it does not; it must exit 0 on the unmodified HEAD and non-zero with the patch applied. Run it as: cd {wt} && PYTHONPATH={wt} /venv/bin/python out/k/demo.py
   notes.txt   - which clause of the property it breaks, where, and what is needed for it to manifest
-After finishing each change restore the tree with `git checkout -- .` (leave out/ untracked), and at the end verify each patch once more from a clean tree: apply, run demo (must fail), run the test suite (no newly failing test), un-apply, run demo (must pass).
+Never use `git stash` (the stash is shared between worktrees of the same repository); after finishing each change restore the tree with `git checkout -- .` or `git apply -R` (leave out/ untracked), and at the end verify each patch once more from a clean tree: apply, run demo (must fail), run the test suite (no newly failing test), un-apply, run demo (must pass).
 Report briefly: for each k one line on the change and the verification you ran.""")
